@@ -6,6 +6,7 @@ pub mod nio;
 pub mod qconc;
 pub mod queue;
 pub mod rtwait;
+pub mod sched;
 pub mod sel;
 pub mod stack;
 pub mod time;
@@ -27,5 +28,6 @@ pub static ALL: &[Comp] = &[
     Comp { name: "sel", gen: sel::gen, exec: sel::exec, isolate_ms: 8000 },
     Comp { name: "stack", gen: stack::gen, exec: stack::exec, isolate_ms: 10000 },
     Comp { name: "trap", gen: trap::gen, exec: trap::exec, isolate_ms: 10000 },
+    Comp { name: "sched", gen: sched::gen, exec: sched::exec, isolate_ms: 10000 },
     Comp { name: "pq", gen: queue::gen_pq, exec: queue::exec_pq, isolate_ms: 500 },
 ];
